@@ -159,7 +159,7 @@ def cfg(**over) -> Dict[str, Any]:
 # ----------------------------------------------------------------------------------------------------------------
 
 _WORDS_A = ("alpha", "beta", "gamma", "delta", "x", "Z9", "hello world", "v1", "12", "0x10", "a b c")
-_WORDS_B = _WORDS_A + ('q"uote', "back\\slash", "hash # mark", "it's", "two  spaces", "an if inside", "on", "$dollar", " lead")
+_WORDS_B = _WORDS_A + ('q"uote', "back\\slash", "hash # mark", "it's", "two  spaces", "an if inside", "on", "$dollar", " lead", '3.5" #2 panel')
 _WORDS_U = _WORDS_B + ("gr\u00fc\u00dfe 25 \u00b0C", "\u4e2d\u6587")  # non-ASCII: byte length != character count
 
 
@@ -604,6 +604,13 @@ class _Builder:
             names.append((name, self.new_config(name, "bool", in_choice=True)))
         for name, m in names:
             self.types[name] = "bool"
+            if c.get("p_member_props") and d.chance(c["p_member_props"]):
+                # properties that have no effect on a choice member (the parser says so in a note) but are accepted:
+                # its own default, or being the target of a select / imply
+                if d.chance(50):
+                    m["defaults"].append({"val": ["y"], "cond": None})
+                else:
+                    self.add_reverse_edges(name, "bool", boost=True)
             self.order.append(name)
             self.conf[name] = m
             self.choice_members[name] = str(self.n_choices)
@@ -749,6 +756,8 @@ def gen_value(d: D, typ: str, c, kind: Optional[str] = None) -> str:
             return d.pick((" 7", "0x1_0", "+0x5", "f "))
         return d.pick((" 1.5", "1_0.5", "+2.5", "1.5 "))
     if typ == "string":
+        if c.get("p_empty_string") and d.chance(c["p_empty_string"]):
+            return ""  # a value like any other: written as CONFIG_X="" and defined as "" in the header
         return gen_literal(d, "string", c)[2]
     if typ == "int":
         if kind == "alt":
